@@ -271,6 +271,7 @@ class ReaderShape:
         self.tagvars: t.Dict[str, ast.expr] = {}
         self.assigned_after_read: t.List[t.Tuple[str, ast.stmt]] = []
         self.read_vars: t.Dict[str, Item] = {}
+        self.aliases: t.Dict[str, str] = {}  # local -> the read variable it is a plain copy of
         self.header_tests: t.Dict[str, str] = {}
 
     def extract(self, root_reader_expr: t.Optional[str], param: str) -> t.List[Item]:
@@ -318,6 +319,13 @@ class ReaderShape:
                 if isinstance(v, ast.Call) and unparse(v.func) == "ASN1Tag":
                     self.tagvars[name] = v
                     continue
+                if isinstance(v, ast.Name) and v.id in self.readers and name not in self.read_vars:
+                    self.readers[name] = self.readers[v.id]  # another name for the same reader
+                    continue
+                if isinstance(v, ast.Name) and v.id in self.read_vars and name not in self.readers:
+                    # another name for a value that was read: the field correspondence follows the alias
+                    self.aliases[name] = self.aliases.get(v.id, v.id)
+                    continue
                 rc = self.reader_call(v)
                 if rc is not None:
                     lst, call, method = rc
@@ -347,7 +355,7 @@ class ReaderShape:
                     self.readers[v.args[0].id].append(it)
                     self.read_vars[name] = it
                     continue
-                if name in self.read_vars:
+                if name in self.read_vars and name not in getattr(self, "_hidden", set()):
                     self.assigned_after_read.append((name, s))
                 continue
             if isinstance(s, ast.AnnAssign):
@@ -355,6 +363,7 @@ class ReaderShape:
             if isinstance(s, ast.If):
                 cond = unparse(s.test)
                 outer = f"{optional} and " if optional else ""
+                before_if = set(self.read_vars)
                 _CUR_TESTS.append((s.test, True))
                 try:
                     self.block(s.body, outer + cond)
@@ -362,10 +371,14 @@ class ReaderShape:
                     _CUR_TESTS.pop()
                 if s.orelse:
                     _CUR_TESTS.append((s.test, False))
+                    # what the other branch read is not "read before" for this branch
+                    hidden_before = set(getattr(self, "_hidden", set()))
+                    self._hidden = hidden_before | (set(self.read_vars) - before_if)  # type: ignore[attr-defined]
                     try:
                         self.block(s.orelse, outer + f"not ({cond})")
                     finally:
                         _CUR_TESTS.pop()
+                        self._hidden = hidden_before  # type: ignore[attr-defined]
                 continue
             if isinstance(s, ast.Expr) and isinstance(s.value, ast.Call):
                 rc0 = self.reader_call(s.value)
